@@ -293,7 +293,7 @@ pub fn run_rta(ctx: &mut Ctx) {
         }
     }
     // seeded random: 1-4 tasks, jitter, bursts, arbitrary cost models where the API allows
-    let n = if ctx.thorough { 40000 } else { 2500 };
+    let n = if ctx.thorough { 60000 } else { 6000 };
     let (tmax, limmax) = if ctx.thorough { (30, 150) } else { (12, 60) };
     for i in 0..n * scale {
         let policy = POLICIES[ctx.rng.gen_range(0..9)];
@@ -310,7 +310,14 @@ pub fn run_rta(ctx: &mut Ctx) {
             continue;
         }
         let k = ctx.rng.gen_range(0..=3);
-        let others: Vec<Value> = (0..k).map(|_| gen_task(&mut ctx.rng, &o, 4, scalar_all)).collect();
+        let mut others: Vec<Value> = (0..k).map(|_| gen_task(&mut ctx.rng, &o, 4, scalar_all)).collect();
+        if policy.starts_with("edf") && ctx.rng.gen_bool(0.5) {
+            // later-deadline interferers: the blocking term of the EDF analyses matters
+            let dt = u(&tua["D"]);
+            for ot in others.iter_mut() {
+                ot["D"] = json!(dt + ctx.rng.gen_range(1..=2 * tmax));
+            }
+        }
         let b = if ctx.rng.gen_bool(0.4) { 0 } else { ctx.rng.gen_range(0..=4) };
         // a first call with a comfortable limit; then limits around the busy-window length
         let big = limmax;
